@@ -384,6 +384,26 @@ def search(ctx, res, proof_broken):
 
 
 def replay(ctx, data):
+    if data.get("kind") == "no-failing-input-found":
+        for b in data.get("correspondence_breaks") or []:
+            inp = b.get("input")
+            if not isinstance(inp, dict) or "edits" not in inp:
+                continue
+            circ, _ = du.replay_edits(inp["ne"], inp["np"], inp["nc"], inp["edits"])
+            with_eff = eff_cost_ok(circ)
+            drv = du.RDriver()
+            toks = inp["edits"]
+            q = "m" if with_eff else "n"
+            rep = drv.ask(f"dag.run ne={inp['ne']} np={inp['np']} nc={inp['nc']} edits={du.emp(','.join(toks))} "
+                          f"qs={','.join(['*'] * max(0, len(toks) - 1) + [q])}" if toks else
+                          f"dag.metrics ne={inp['ne']} np={inp['np']} nc={inp['nc']} ops=*")
+            drv.close()
+            model_m = rep["q"].split(",")[-1].split(":", 1)[1] if toks else rep["m"]
+            impl_m = du.metrics_str(circ, with_eff)
+            print("  implementation:", impl_m)
+            print("  model         :", model_m)
+            return impl_m == model_m
+        return None
     v = data.get("violation") or {}
     inp = v.get("input")
     if not inp:
